@@ -325,7 +325,10 @@ impl Runtime {
             self.finished_main_thread = Some(thread);
             return true;
         }
-        if !thread.is_main && thread.done {
+        // a task that has finished, or has stopped with a runtime error, can never run again: it
+        // is released together with its heap. (The error of a task is not reported anywhere; only
+        // the main thread's error is the result of the program.)
+        if !thread.is_main && (thread.done || thread.error.is_some()) {
             return false;
         }
 
